@@ -19,7 +19,7 @@ pub fn closure_case(ctx: &mut Ctx, samples: &[Val], o: &TOpts, label: &str) {
             let accepted = crate::coqfmt::guarded(|| serde_arrow::to_marrow(&fields, samples).map(|_| ()).map_err(|e| e.to_string()));
             let mut failure = None;
             if let Out::Err(e) = &accepted {
-                let class = if e.contains("Cannot serialize enum with data as string") && samples.iter().any(has_unit_payload_variant) { "unit_payload_variant_traced_as_string" } else if e.contains("serialize_unit/serialize_none is not supported") && e.contains("Union(..)") { "excluded_null_for_enum" } else if o.guess_dates && e.contains("arse") { "excluded_guess_dates" } else if o.coerce && e.contains("out of range") { "excluded_u64_above_i64" } else if o.to_string && o.dict && e.contains("Dictionary") { "to_string_with_dictionary" } else { "traced_schema_rejects_samples" };
+                let class = if e.contains("Cannot serialize enum with data as string") && samples.iter().any(has_unit_payload_variant) { "unit_payload_variant_traced_as_string" } else if e.contains("serialize_unit/serialize_none is not supported") && e.contains("Union(..)") { "excluded_null_for_enum" } else if o.guess_dates && e.contains("arse") && samples.iter().any(has_doubtful_date_string) { "excluded_guess_dates" } else if o.coerce && e.contains("out of range") { "excluded_u64_above_i64" } else if o.to_string && o.dict && e.contains("Dictionary") { "to_string_with_dictionary" } else { "traced_schema_rejects_samples" };
                 ctx.count(&format!("closure_failure:{}", class));
                 if class.starts_with("excluded") { ctx.add_eval(&format!("{:?}{:?}", o, samples), false); return; }
                 failure = Some((class, format!("options {:?}: the traced schema rejects its own samples: {}", o, e)));
@@ -34,6 +34,23 @@ pub fn closure_case(ctx: &mut Ctx, samples: &[Val], o: &TOpts, label: &str) {
 }
 
 /// a data-carrying enum variant whose payload is the unit value: `enum E { A, B(()) }`, B(())
+/// the documented exclusion for guess_dates: a string that only LOOKS like a date / time (digits with '-' or ':') but that chrono, which the
+/// temporal builders use, does not read as a date, a naive or UTC datetime, or a time. Collections in which every such string is genuine are
+/// not excluded: a traced temporal type must then accept them all
+fn has_doubtful_date_string(v: &Val) -> bool {
+    fn doubtful(s: &str) -> bool {
+        let looks = s.chars().next().map_or(false, |c| c.is_ascii_digit() || c == '+' || c == '-') && (s.contains('-') || s.contains(':'));
+        looks && s.parse::<chrono::NaiveDate>().is_err() && s.parse::<chrono::NaiveDateTime>().is_err() && s.parse::<chrono::DateTime<chrono::Utc>>().is_err() && s.parse::<chrono::NaiveTime>().is_err()
+    }
+    match v {
+        Val::Str(s) => doubtful(s),
+        Val::Some(x) | Val::Newtype(x) | Val::NewtypeVariant(_, _, x) => has_doubtful_date_string(x),
+        Val::Seq(xs) | Val::Tuple(xs) | Val::TupleStruct(xs) | Val::TupleVariant(_, _, xs) => xs.iter().any(has_doubtful_date_string),
+        Val::Struct(fs, _) | Val::StructVariant(_, _, fs) => fs.iter().any(|(_, x)| has_doubtful_date_string(x)),
+        Val::Map(es) => es.iter().any(|(k, x)| has_doubtful_date_string(k) || has_doubtful_date_string(x)),
+        _ => false,
+    }
+}
 fn has_unit_payload_variant(v: &Val) -> bool {
     match v {
         Val::NewtypeVariant(_, _, p) => matches!(**p, Val::Unit | Val::UnitStruct) || has_unit_payload_variant(p),
@@ -72,6 +89,20 @@ pub fn run(ctx: &mut Ctx) {
             vec![Val::Struct(vec![("o".into(), Val::Some(Box::new(rec(Val::UnitVariant(1, "B".into())))))], 0), Val::Struct(vec![("o".into(), Val::None)], 0)],
         ];
         for fam in &families { for b in [0u32, 1, 2, 256, 257, 511, 3, 17] { closure_case(ctx, fam, &TOpts::from_bits(b | 1), "unseen_variant_below_nullable"); } }
+    }
+    // directed family: every ordered pair of string-like kinds (plain text, naive / UTC datetime, date, time, null, optional text) at one
+    // position - a field and a list element - under the coercion-relevant option sets with guess_dates on: whichever temporal type is
+    // guessed for the position must accept every string that led to it
+    {
+        let kinds = [12usize, 13, 14, 15, 16, 19, 21];
+        let opts: Vec<TOpts> = tg::opts_pool_coercion().into_iter().filter(|o| o.guess_dates).collect();
+        for &k1 in &kinds { for &k2 in &kinds {
+            let mut rng = ctx.rng.fork();
+            let (a, b) = (tg::leaf(k1, &mut rng), tg::leaf(k2, &mut rng));
+            let as_field = vec![Val::Struct(vec![("t".into(), a.clone())], 0), Val::Struct(vec![("t".into(), b.clone())], 0)];
+            let as_items = vec![Val::Struct(vec![("l".into(), Val::Seq(vec![a.clone(), b.clone()]))], 0)];
+            for o in &opts { closure_case(ctx, &as_field, o, "guessed_dates_pair"); closure_case(ctx, &as_items, o, "guessed_dates_pair"); }
+        } }
     }
     // directed family: every kind of null marker (None, unit, unit struct) next to every kind of scalar or
     // container at one position, in both orders
